@@ -12,7 +12,7 @@ from harness.c03 import ALL_MAPS, MAPS, body_match, extra_checks, make_stubs  # 
 
 PROPERTY = "C12"
 BOUNDS = {
-    "quick": {"path": "'/' + <= 5 solver characters (printable ASCII without % ? #), incl. leading '//host' forms", "maps": "6 redirecting maps incl. defaults and alias rules",
+    "quick": {"path": "'/' + <= 5 solver characters (printable ASCII without % ? #), incl. leading '//host' forms", "maps": "8 redirecting maps incl. defaults (equal and wider), alias and per-method rules",
               "script roots": ["/", "/app", "/app/"], "schemes": ["http", "https"]},
     "thorough": {"path": "<= 7 characters"},
 }
@@ -25,13 +25,14 @@ def obligations(tier, seed):
     out = []
     quick = tier == "quick"
     nm = len(MAPS)
-    for mi in (0, 2, 6, 8, nm, nm + 1):
+    for mi in (0, 2, 6, 8, nm, nm + 1, nm + 2, nm + 3):
         for script in ("/", "/app", "/app/"):
             for scheme in (("http", "https") if script == "/" else ("https",)):
                 for strict, merge in [(True, True), (True, False), (False, True)]:
+                  for method in (("GET", "POST") if mi == nm + 3 else ("GET",)):
                     for n in (range(0, 6) if quick else range(0, 8)):
-                        out.append({"name": f"redirects[map={mi},script={script},{scheme},strict={strict},merge={merge},n={n}]", "body": "body_match",
-                                    "params": {"mi": mi, "order": 0, "strict": strict, "merge": merge, "n": n, "method": "GET",
+                        out.append({"name": f"redirects[map={mi},script={script},{scheme},strict={strict},merge={merge},{method},n={n}]", "body": "body_match",
+                                    "params": {"mi": mi, "order": 0, "strict": strict, "merge": merge, "n": n, "method": method,
                                                "script": script, "scheme": scheme},
                                     "opts": {"budget_s": 600 if quick else 3000, "ctx": {"max_cp": 0x7E, "bv_ints": True}},
                                     "witness": n == 2 and mi == 0 and script == "/app"})
